@@ -175,6 +175,10 @@ class ServeMultiPeriodManifest(RequestHandlerBase):
         # as for single period manifests: options that only apply to live
         # streams must not be forwarded to VOD media URLs
         options.remove_unused_parameters(mode)
+        error: str | None = self.check_periods(options)
+        if error is not None:
+            logging.warning('%s', error)
+            return flask.make_response(html.escape(error), 404)
         dash = ManifestContext(
             manifest=current_manifest, options=options, stream=None,
             multi_period=current_mps)
@@ -193,6 +197,29 @@ class ServeMultiPeriodManifest(RequestHandlerBase):
         }
         add_allowed_origins(headers, methods={'GET', 'HEAD'})
         return flask.make_response((body, 200, headers))
+
+    def check_periods(self, options: OptionsContainer) -> str | None:
+        """
+        Checks that a manifest can be produced from every period. The streams
+        and files that a period uses might have been modified since it
+        was created.
+        """
+        if not current_mps.periods:
+            return f'Multi-period stream {current_mps.name} has no periods'
+        for period in current_mps.periods:
+            if period.stream.timing_reference is None:
+                return (f'Stream {period.stream.directory} of period {period.pid} ' +
+                        'has no timing reference')
+            has_video: bool = False
+            for adp in period.adaptation_sets:
+                if adp.content_type.name != 'video':
+                    continue
+                for mf in adp.media_files(encrypted=options.encrypted):
+                    if mf.representation is not None:
+                        has_video = True
+            if not has_video:
+                return f'Period {period.pid} has no usable video track'
+        return None
 
 
 class LegacyManifestUrl(ServeManifest):
